@@ -59,6 +59,18 @@ def uniquify(t, fields=True):
             if k == "int":
                 return ("lit", "int", str(1000 + i))
             if k == "float":
+                # the same value in spellings of ordinary and of ladder length (trailing zeros, long mantissa
+                # with an exponent in either letter case): every spelling denotes (2000 + i) + 0.5 exactly
+                sp = i % 8
+                if sp in (6, 7):
+                    d = str(2000 + i)
+                    return ("lit", "float", "%s.%s5%s%s1" % (d[:-1], d[-1], "0" * 36, "E" if sp == 6 else "e"))
+                if sp == 3:
+                    return ("lit", "float", "%d.5%s" % (2000 + i, "0" * 36))
+                if sp == 4:
+                    return ("lit", "float", "%d5%sE-39" % (2000 + i, "0" * 38))
+                if sp == 5:
+                    return ("lit", "float", "0.%s%d5e%d" % ("0" * 30, 2000 + i, 34))
                 return ("lit", "float", "%d.5" % (2000 + i))
             if k == "str":
                 # unique marker + (sometimes) characters that need quoting / escaping in SQL
